@@ -98,7 +98,7 @@ def main():
         # --- correspondence of the packaging model
         M.fakepath_stream(chk, 400 * scale)
         debs = []
-        for name, n in [('packages', 14 * scale)]:
+        for name, n in [('packages', 20 * scale)]:
             found += F.packages(chk, work, n, stats, cli_every=4 if not thorough else 6, keep=debs)
         cases = []
         plain = work.write('plain/other.txt', b'just a text file\n')
@@ -115,7 +115,7 @@ def main():
         import random
         for sd in seeds:
             chk.rng = random.Random(f'C17/{sd}')
-            for fn, n in [(F.po_spellings, 110), (F.transcodings, 110), (F.mo_layouts, 120), (F.po_vs_mo, 150)]:
+            for fn, n in [(F.po_spellings, 200), (F.transcodings, 200), (F.mo_layouts, 200), (F.po_vs_mo, 300)]:
                 r = fn(chk, work, n * (2 if thorough else 1), stats)
                 found += r
                 chk.evaluations += 1
